@@ -57,7 +57,9 @@ HOSTILE_TEXT = ('1e3', 'TRUE', 'false', 'null', '~', 'a: b', '- x', '{a: 1}', '[
                 'x' * 130, 'a,b', '-0.0', 'on', 'off', '12e', 'S!A1', '3 ', 'smile \U0001F600 x',
                 '\u00e9\u4e2d\u6587', 'back\\slash', 'q"uote\\"',
                 # line breaks other than \\n, DEL and C1 controls, byte order mark
-                'nel\x85x', 'ls\u2028x', 'ps\u2029 y', 'del\x7fx', 'c1\x9cx', 'bom\ufeffx')
+                'nel\x85x', 'ls\u2028x', 'ps\u2029 y', 'del\x7fx', 'c1\x9cx', 'bom\ufeffx',
+                # what an escape for text beginning with '=' would have to leave alone
+                "'=B1*2", "'=", "''", "'")
 # not in the pool: 'NaN', 'inf', '.inf' - pycel's number coercion turns such text into float
 # nan/inf (operator semantics, C10, not claimed) and the original model itself then raises
 HOSTILE_NUM = (1e-7, 1e22, -0.0, 0.1 + 0.2, 123456789012345678, 1e-300, 2 ** 53 + 1.0, -1e-5,
@@ -186,6 +188,11 @@ def gen_case(rnd, tier, index):
                 ops.append(draw_set())
             else:
                 ops.append(draw_eval())
+        if rnd.random() < 0.12:
+            # the user's notes change between two saves (assigned anew, or edited in place)
+            ops.append({'op': 'extra', 'mode': rnd.choice(('assign', 'edit')),
+                        'data': rnd.choice(({'note': 'y', 'n': 2}, {'rev': [4, 5]},
+                                            {'author': 'z', 'flag': False}))})
         roll = rnd.random()
         if roll < 0.55 or not any(o['op'] == 'save' for o in ops):
             op = {'op': 'save', 'name': rnd.choice(names), 'types': list(rnd.choice(SAVE_TYPES)),
@@ -351,7 +358,9 @@ def run_case(case):
         model = driver.model
         if cfg.get('extra_data') is not None:
             model.extra_data = json.loads(json.dumps(cfg['extra_data']))
-        user_extra = cfg.get('extra_data')
+        user_extra = json.loads(json.dumps(cfg.get('extra_data')))
+        extra_at_save = {}
+        state['user_extra'] = user_extra
         # every cell evaluated before anything is saved
         for a in dag.order:
             out = outcome_of(lambda a=a: model.evaluate(a))
@@ -403,6 +412,7 @@ def run_case(case):
             else:
                 f[text_ext] = gen
             last_good[name] = gen
+            extra_at_save[name] = json.loads(json.dumps(state.get('user_extra')))
             saved_addrs[name] = sorted(a for a in target_model.cell_map if a in dag.cell)
             events.append((i, 'save', name, types, sorted(f.items())))
             return text_ext
@@ -429,6 +439,18 @@ def run_case(case):
                 for a in dag.order:
                     if a in model.cell_map:
                         outcome_of(lambda a=a: model.evaluate(a))
+            elif k == 'extra':
+                if op['mode'] == 'assign' or model.extra_data is None:
+                    model.extra_data = json.loads(json.dumps(op['data']))
+                    user_extra = json.loads(json.dumps(op['data']))
+                else:
+                    model.extra_data.update(json.loads(json.dumps(op['data'])))
+                    user_extra = dict(user_extra or {}, **json.loads(json.dumps(op['data'])))
+                state['user_extra'] = user_extra
+                changed_since_build = True
+                events.append((i, 'extra', op['mode'], sorted(op['data'])))
+                sig_items.append(('x', op['mode']))
+                count('probe:extra_data-changed-between-saves')
             elif k == 'save':
                 fault = op.get('fault')
                 n_saves += 1
@@ -576,8 +598,8 @@ def run_case(case):
                         if orig_attrs[key] != loaded_attrs[key]:
                             violate('attribute-lost', i, op, {key: orig_attrs[key]},
                                     {key: loaded_attrs[key]}, attr=key)
-                    if user_extra:
-                        for key, val in user_extra.items():
+                    if extra_at_save.get(name):
+                        for key, val in extra_at_save[name].items():
                             if (loaded_attrs.get('extra_data') or {}).get(key) != val:
                                 violate('extra_data-lost', i, op, {key: val},
                                         (loaded_attrs.get('extra_data') or {}).get(key))
